@@ -207,6 +207,8 @@ def run(ctx):
     ctx.attempt(r174, ctx, rep, mod)
     ctx.attempt(r175, ctx, rep, mod)
     ctx.attempt(r176, ctx, rep, mod)
+    rep.rule('R17.8', 'the statement that empties the target and the statement that fills it name the same table: both are built from the same (quoted, schema-qualified) name on every path')
+    ctx.attempt(r178, ctx, rep, mod)
     rep.rule('R17.7', 'the connection petl opens for a file name (todb / appenddb / fromdb) is a plain sqlite3.connect(<name>): no option that changes what is stored, read back or committed (detect_types, isolation_level, autocommit, factory ...)')
     ctx.attempt(r177, ctx, rep, mod)
 
@@ -498,3 +500,48 @@ def r177(ctx, rep, mod):
                 rep.held('R17.7', fn, norm(c)[:70], 'plain connection', c)
     if n < 3:
         raise AnalysisError('anchor vanished: only %d connect() calls in fromdb / todb / appenddb' % n)
+
+
+# ------------------------------------------------------------------------- R17.8
+def r178(ctx, rep, mod):
+    """todb replaces the rows of ONE table.  The DELETE and the INSERT are two format strings filled with a table name; if
+    the name is quoted / schema-qualified between the two, the DELETE empties whatever the bare name resolves to and the
+    INSERT extends the qualified table."""
+    from ..ladder import paths, resolve
+    n = 0
+    allfns = dict(getattr(mod, 'inlined_away', {}))
+    allfns.update(mod.functions)
+    for fn in allfns.values():
+        def fmt_arg(st, which):
+            # `<name> = SQL_X_QUERY % <arg>` -> the table-name argument
+            if isinstance(st, ast.Assign) and isinstance(st.value, ast.BinOp) and isinstance(st.value.op, ast.Mod) and \
+                    which in norm(st.value.left):
+                r = st.value.right
+                return r.elts[0] if isinstance(r, ast.Tuple) and r.elts else r
+            return None
+        if not any(fmt_arg(x, 'TRUNCATE') is not None or fmt_arg(x, 'DELETE') is not None for x in own_nodes(fn.node)):
+            continue
+        if not any(fmt_arg(x, 'INSERT') is not None for x in own_nodes(fn.node)):
+            continue
+        verdicts = set()
+        for pth in paths(fn.node.body, {}, limit=64):
+            eff = list(pth.effects)
+            d = [(i, fmt_arg(st, 'TRUNCATE') or fmt_arg(st, 'DELETE')) for i, st in enumerate(eff)]
+            d = [(i, a) for i, a in d if a is not None]
+            ins = [(i, fmt_arg(st, 'INSERT')) for i, st in enumerate(eff)]
+            ins = [(i, a) for i, a in ins if a is not None]
+            if not d or not ins:
+                continue
+            td = norm(resolve(d[0][1], eff[:d[0][0]]))
+            ti = norm(resolve(ins[0][1], eff[:ins[0][0]]))
+            verdicts.add((td == ti, td, ti))
+        if not verdicts:
+            continue
+        n += 1
+        bad = [v for v in verdicts if not v[0]]
+        if bad:
+            rep.violated('R17.8', fn, 'DELETE / INSERT target', 'the emptying statement names `%s`, the insert names `%s`: with a '
+                         'schema (or a name that needs quoting) the load empties one table and fills another' % (bad[0][1][:50], bad[0][2][:60]), fn.node)
+        else:
+            rep.held('R17.8', fn, 'DELETE / INSERT target', 'one name on every path', fn.node)
+    ctx.floor('load_functions_with_both_statements', n, 3)
